@@ -842,7 +842,17 @@ impl Prop for C20 {
     }
 
     fn fixed_cases(&self) -> Vec<Case> {
-        vec![Case { threads: vec![vec![Req::ApproverKeysend { h: 0 }], vec![Req::ApproverKeysend { h: 0 }]], pct: false, sched_seed: 11, chain: false }]
+        vec![
+            Case { threads: vec![vec![Req::ApproverKeysend { h: 0 }], vec![Req::ApproverKeysend { h: 0 }]], pct: false, sched_seed: 11, chain: false },
+            // two allowlist additions at once (admin request and approver): memory and store must
+            // end up with both, as in either sequential order
+            Case { threads: vec![vec![Req::Allowlist { k: 0 }], vec![Req::Allowlist { k: 1 }]], pct: false, sched_seed: 12, chain: false },
+            // a chain follower asking for the tip while a block is connected
+            Case { threads: vec![vec![Req::WireTipInfo], vec![Req::AddBlock]], pct: false, sched_seed: 13, chain: false },
+            // the same keysend, and an invoice against a keysend for one hash, proposed at once
+            Case { threads: vec![vec![Req::Keysend { h: 0 }], vec![Req::Keysend { h: 0 }]], pct: false, sched_seed: 14, chain: false },
+            Case { threads: vec![vec![Req::Keysend { h: 1 }], vec![Req::Invoice { h: 1 }]], pct: false, sched_seed: 15, chain: false },
+        ]
     }
 
     fn run(&self, case: &Case, stt: &mut CaseStats, ctx: &Ctx) -> Result<(), Violation> {
